@@ -16,6 +16,7 @@ import (
 	"github.com/MixinNetwork/mixin/common"
 	"github.com/MixinNetwork/mixin/config"
 	"github.com/MixinNetwork/mixin/crypto"
+	"github.com/MixinNetwork/mixin/storage"
 	"github.com/MixinNetwork/mixin/verifgen"
 	"github.com/dgraph-io/ristretto/v2"
 )
@@ -230,11 +231,36 @@ func (h *verifHistory) nodeNoCache() *Node {
 		cnodes[i].Signer.PrivateSpendKey = crypto.Key{}
 		cnodes[i].Payee.PrivateSpendKey = crypto.Key{}
 	}
-	node := &Node{Epoch: h.Epoch, networkId: h.NetworkId, allNodesSortedWithState: cnodes, genesisNodesMap: h.Genesis,
+	node := &Node{Epoch: h.Epoch, networkId: h.NetworkId, genesisNodesMap: h.Genesis,
 		chains: &chainsMap{m: make(map[crypto.Hash]*Chain)}}
-	node.nodeStateSequences = node.buildNodeStateSequences(cnodes, false)
-	node.acceptedNodeStateSequences = node.buildNodeStateSequences(cnodes, true)
+	// the in-memory membership is loaded by the node's own loader from the records (as at startup and after every
+	// finalized membership operation), not assembled by the harness
+	st := &verifHistoryStore{}
+	for _, cn := range cnodes {
+		st.nodes = append(st.nodes, &common.Node{Signer: cn.Signer, Payee: cn.Payee, State: cn.State, Transaction: cn.Transaction, Timestamp: cn.Timestamp})
+	}
+	node.persistStore = st
+	if err := node.LoadConsensusNodes(); err != nil {
+		panic(err)
+	}
 	return node
+}
+
+// verifHistoryStore answers the one store call the membership loader makes.
+type verifHistoryStore struct {
+	storage.Store
+	nodes []*common.Node
+}
+
+func (s *verifHistoryStore) ReadAllNodes(threshold uint64, withState bool) []*common.Node {
+	var out []*common.Node
+	for _, n := range s.nodes {
+		if n.Timestamp <= threshold {
+			c := *n
+			out = append(out, &c)
+		}
+	}
+	return out
 }
 
 // ---- independent reference model ----
